@@ -941,8 +941,10 @@ class Project:
                 )
                 self._sp_cache_warned = True
             statepoint = self._get_statepoint_from_workspace(job_id, validate)
-            # Update the project's state point cache from this cache miss
-            self._sp_cache[job_id] = statepoint
+            # Update the project's state point cache from this cache miss, but only
+            # with a validated state point (repair() looks up with validate=False).
+            if validate:
+                self._sp_cache[job_id] = statepoint
         return statepoint
 
     def create_linked_view(self, prefix=None, job_ids=None, path=None):
